@@ -3176,7 +3176,13 @@ class Map(TraitType):
         return self.map[value]
 
     def post_setattr(self, object, name, value):
-        setattr(object, name + "_", self.mapped_value(value))
+        try:
+            mapped_value = self.mapped_value(value)
+        except (KeyError, TypeError):
+            # Inside a compound trait the value may have been accepted by
+            # another member: let the TraitCompound handler move on.
+            raise TraitError("Unmappable") from None
+        setattr(object, name + "_", mapped_value)
 
     def info(self):
         keys = sorted(repr(x) for x in self.map.keys())
@@ -3302,7 +3308,13 @@ class PrefixMap(TraitType):
         return self.map[value]
 
     def post_setattr(self, object, name, value):
-        setattr(object, name + "_", self.mapped_value(value))
+        try:
+            mapped_value = self.mapped_value(value)
+        except (KeyError, TypeError):
+            # Inside a compound trait the value may have been accepted by
+            # another member: let the TraitCompound handler move on.
+            raise TraitError("Unmappable") from None
+        setattr(object, name + "_", mapped_value)
 
     def info(self):
         return (
